@@ -1,6 +1,8 @@
 package main
 
 import (
+	"fmt"
+	"go/types"
 	"regexp"
 	"strings"
 
@@ -118,6 +120,42 @@ func checkC02(c *Ctx) {
 			}
 		}
 	}
+	// ---- mixed formulas assume a normalised operand
+	c.Rule("C02.mixed", "MIXED-PRECONDITION: a point operation whose name says 'mixed' uses a formula that omits the Z coordinate of one operand; that operand has an affine type (no Z / ZZ coordinate), or every return of the operation lies on a decided edge of an IsOne test of that operand's Z (so that a non-normalised operand is never run through the Z=1 formula)", 40)
+	for _, fn := range libFuncs(p) {
+		if fn.Parent() != nil || fn.Signature.Recv() == nil || !strings.Contains(strings.ToLower(fn.Name()), "mixed") {
+			continue
+		}
+		pk := relPkg(fnPkgPath(fn))
+		if !regexp.MustCompile(`^ecc/[a-z0-9-]+(/twistededwards|/bandersnatch)?$`).MatchString(pk) {
+			continue
+		}
+		c.Instance("C02.mixed", 1)
+		affine := false
+		var projIdx []int
+		for i, par := range fn.Params[1:] {
+			if hasZCoord(par.Type()) {
+				projIdx = append(projIdx, i)
+			} else if pt, ok := par.Type().(*types.Pointer); ok {
+				if _, isStruct := pt.Elem().Underlying().(*types.Struct); isStruct {
+					affine = true
+				}
+			}
+		}
+		if affine {
+			c.Ob("C02.mixed", pk, funcKey(fn), "has-affine-operand", p.Pos(fn.Pos()), true, "")
+			continue
+		}
+		if len(projIdx) == 0 {
+			continue
+		}
+		var alts [][]Req
+		for _, i := range projIdx {
+			alts = append(alts, []Req{{"normalised", fmt.Sprintf(`^ok \w+\.IsOne\(p%d\.ZZ?\)$`, i)}}, []Req{{"not-normalised-other-formula", fmt.Sprintf(`^not \w+\.IsOne\(p%d\.ZZ?\)$`, i)}})
+		}
+		RequireDNF(c, p, "C02.mixed", fn, AcceptAny, nil, "Z-is-one-tested", alts)
+	}
+
 	// ---- definite assignment of fluent operations
 	re := regexp.MustCompile(`^ecc/[a-z0-9-]+(/twistededwards|/bandersnatch)?\.\(\*([gG][12](Jac|Affine|JacExtended|Proj)|Point(Affine|Proj|Extended))\)\.`)
 	skip := regexp.MustCompile(`\)\.(SetBytes|setBytes|Unmarshal|unsafeSetCompressedBytes|unsafeComputeY|MultiExp|Fold|msm\w*|SetString)$`) // decoders: C07; MSM: C04
@@ -164,4 +202,22 @@ func callsNamed(fn *ssa.Function, name string) int {
 		}
 	}
 	return n
+}
+
+// hasZCoord: pointer to a struct with a field Z or ZZ (projective / Jacobian / extended point).
+func hasZCoord(t types.Type) bool {
+	pt, ok := t.(*types.Pointer)
+	if !ok {
+		return false
+	}
+	st, ok := pt.Elem().Underlying().(*types.Struct)
+	if !ok {
+		return false
+	}
+	for i := 0; i < st.NumFields(); i++ {
+		if n := st.Field(i).Name(); n == "Z" || n == "ZZ" {
+			return true
+		}
+	}
+	return false
 }
